@@ -1020,6 +1020,14 @@ func (n *node) sendReplicateMessages(ud pb.Update) {
 	for _, msg := range ud.Messages {
 		if isFreeOrderMessage(msg) {
 			msg.ShardID = n.shardID
+			// these messages leave before the entries of this update are saved.
+			// when the local replica alone is the quorum, the commit index has
+			// already been advanced over those entries, it must not be revealed
+			// to non-voting members until the entries are durable here.
+			if msg.Type == pb.Replicate && len(ud.EntriesToSave) > 0 &&
+				msg.Commit >= ud.EntriesToSave[0].Index {
+				msg.Commit = ud.EntriesToSave[0].Index - 1
+			}
 			n.sendRaftMessage(msg)
 		}
 	}
